@@ -26,7 +26,7 @@ RULE = ("21 oriented models x shape parameters from each model's random generato
 ASSUMPTIONS = ["raw library functions are the model's own 1-D and 2-D functions",
                "each model is held to its own integration accuracy (observed convergence of both sides)"]
 REQUIRED_MONITORS = ["1d_is_spherical_average", "api_1d_is_average_of_2d", "integration_size_independent_where_resolved"]
-REQUIRED_BUCKETS = {"quick": ["api:size-mesh>100", "sym:ac", "sym:abc", "qsize<1", "qsize>5", "deciding"]}
+REQUIRED_BUCKETS = {"quick": ["special:two-lengths-equal", "special:one-length-comparable-to-another", "api:size-mesh>100", "sym:ac", "sym:abc", "qsize<1", "qsize>5", "deciding"]}
 REQUIRED_BUCKETS["thorough"] = REQUIRED_BUCKETS["quick"]
 
 _hi = {}
@@ -84,6 +84,19 @@ def gen_cases(tier, seed):
         for k in range(n):
             cases.append({"id": "%s/%03d" % (m, k), "model": m, "k": k, "seed": seed, "nq": 5 if tier == "quick" else 8,
                           "group": "%s/%d" % (m, k)})
+        # special shapes: two lengths exactly equal (a particle with an extra symmetry), and one length a large
+        # fraction of / larger than another (walls as thick as the particle): inside the declared limits like any other
+        lens = [p.name for p in sas.info(m).parameters.kernel_parameters
+                if p.type == "volume" and p.length == 1 and p.units == "Ang"]
+        pairs = [(a, b) for ia, a in enumerate(lens) for b in lens[ia + 1:]]
+        ordered = [(a, b) for a in lens for b in lens if a != b]
+        cap = 6 if tier == "quick" else 1000
+        for j, (a, b) in enumerate((pairs[seed % max(len(pairs), 1):] + pairs[:seed % max(len(pairs), 1)])[:cap]):
+            cases.append({"id": "%s/eq-%s-%s" % (m, a, b), "model": m, "k": 100 + j, "seed": seed, "nq": 3, "group": "%s/e%d" % (m, j),
+                          "special": ["equal", a, b]})
+        for j, (a, b) in enumerate((ordered[seed % max(len(ordered), 1):] + ordered[:seed % max(len(ordered), 1)])[:cap]):
+            cases.append({"id": "%s/ratio-%s-%s" % (m, a, b), "model": m, "k": 200 + j, "seed": seed, "nq": 3, "group": "%s/r%d" % (m, j),
+                          "special": ["ratio", a, b]})
     return cases
 
 
@@ -131,6 +144,19 @@ def run_case(case, rec):
             if p_.name.startswith("n_") and p_.length == 1 and p_.name in pars:
                 pars[p_.name] = float(int(pars[p_.name])) + float(rng.uniform(0.5, 0.99))
                 rec.bucket("fractional_count_parameter")
+    sp = case.get("special")
+    if sp:
+        kind_, a_, b_ = sp
+        lo_b, hi_b = i.parameters[b_].limits
+        lo_a, hi_a = i.parameters[a_].limits
+        if kind_ == "equal" and lo_b <= pars[a_] <= hi_b:
+            pars[b_] = pars[a_]
+            rec.bucket("special:two-lengths-equal")
+        elif kind_ == "ratio":
+            val = float(rng.choice([0.55, 0.7, 0.9, 1.15]))*pars[b_]
+            if lo_a <= val <= hi_a:
+                pars[a_] = val
+                rec.bucket("special:one-length-comparable-to-another")
     r = sas.raw(i)
     v = r.flat({kk: pars[kk] for kk in pars if kk not in ("scale", "background")})
     hi = hi_raw(i)
